@@ -69,6 +69,7 @@ func NewShared(prog *ssa.Program) *Shared {
 	registerModelIntrinsics(sh.intr)
 	registerStdlib(sh.intr)
 	registerGob(sh.intr)
+	registerFiles(sh.intr)
 	if p := prog.ImportedPackage("errors"); p != nil {
 		sh.errorsNew = p.Func("New")
 	}
